@@ -48,3 +48,15 @@ Fixpoint run (flag : bool) (ops : list (mode * qstate * option qstate)) : list o
       let '(o, cs, f1) := recv_first m q d flag in
       let '(os, cs', f2) := run f1 r in (o :: os, cs ++ cs', f2)
   end.
+
+(* ---- the loop of the free function recv(): messages that a crashed sender left unfinished ("torn": the first fragment arrived,
+   the dedicated channel reports end-of-file with bytes owed) are discarded and the receive is simply attempted again IN THE SAME
+   MODE - a non-blocking receive stays non-blocking, a timed one polls again with its full timeout.  `torn` such messages head the
+   queue, then the kernel holds `q`.  Each discarded message costs one attempt of the mode (which finds a packet) ---- *)
+Fixpoint recv_all (m : mode) (torn : nat) (q : qstate) (during : option qstate) (flag : bool) : outcome * list call * bool :=
+  match torn with
+  | O => recv_first m q during flag
+  | S n =>
+      let '(_, cs, f1) := recv_first m QMsg None flag in          (* a first fragment is there: taken, found torn, dropped *)
+      let '(o, cs', f2) := recv_all m n q during f1 in (o, cs ++ cs', f2)
+  end.
